@@ -270,6 +270,11 @@ func c06RunCase(in c06In, id string, seq int) vfCase {
 
 // c06RunOn presents the request of the case to an existing validator instance (configured as in.Cfg).
 func c06RunOn(v *Validator, in c06In) c06Obs {
+	if in.TZ != 0 {
+		old := time.Local
+		time.Local = time.FixedZone("verif", in.TZ)
+		defer func() { time.Local = old }()
+	}
 	obs := c06Obs{}
 	cookie := ""
 	if in.Cfg.JWT != nil {
@@ -1089,6 +1094,9 @@ func c06GenCase(r *vfRand, adv bool) c06In {
 	if set["sig"] && r.Chance(1, 3) { // behind a filter that leaves the request alone
 		in.Pre = r.PickStr("setpath", "trim", "regexp", "replace")
 	}
+	if set["sig"] && r.Chance(1, 3) { // the process lives in another time zone
+		in.TZ = r.PickInt(-5*3600, 5*3600+1800, 14*3600, -12*3600, 3600, -1800)
+	}
 	return in
 }
 
@@ -1189,6 +1197,24 @@ func c06Enum(step int) []c06In {
 			out = append(out, c06In{Cfg: c06Cfg{Sig: &c06SigCfg{Keys: [][2]string{{"AKID", "SECRET"}}, TTL: "10m"}},
 				Req: c06Req{Method: "GET", Path: path, Host: "example.com", Query: [][2]string{{"q", "1"}}}, Plan: &pl, Pre: pre,
 				JNow: 1700000000, Kind: 1, Note: "behind " + pre})
+		}
+	}
+	// the zone of the process must not matter: ttl / presign expiry on both sides, several zones (always)
+	for _, tz := range []int{-5 * 3600, 5*3600 + 1800, 14 * 3600, -12 * 3600} {
+		for _, c := range []struct {
+			mode string
+			ttl  string
+			age  int64
+			exp  int64
+		}{{"header", "10m", 2, 300}, {"header", "10m", 660, 300}, {"header", "10m", -660, 300}, {"query", "", 2, 300}, {"query", "", 400, 300},
+			{"query", "1h", 30, 86400}, {"header", "", 86400, 300}} {
+			pl := c06SigPlan{Mode: c.mode, KeyID: "AKID", Secret: "SECRET", AgeS: c.age, Expires: c.exp, Signed: []string{"host"}, BodyAs: "actual"}
+			if c.mode == "header" {
+				pl.Signed = append(pl.Signed, "x-me-date")
+			}
+			out = append(out, c06In{Cfg: c06Cfg{Sig: &c06SigCfg{Keys: [][2]string{{"AKID", "SECRET"}}, TTL: c.ttl}},
+				Req: c06Req{Method: "GET", Path: "/tz", Host: "example.com"}, Plan: &pl, TZ: tz, JNow: 1700000000, Kind: 18,
+				Note: fmt.Sprintf("process zone %+d s", tz)})
 		}
 	}
 	// jwt on the real clock: time claims within +-90 s of now (always, not sampled)
